@@ -6,7 +6,7 @@
    known finding F10).  None = the Go code would index out of range. *)
 From Coq Require Import List ZArith Bool.
 Import ListNotations.
-From V Require Import Model.SyncRingConc Proofs.SyncRingConc Proofs.SyncRingConcTop Proofs.SyncRingSeqState Proofs.SyncRingShort Proofs.SyncRingPopProgress.
+From V Require Import Model.SyncRingConc Proofs.SyncRingConc Proofs.SyncRingConcTop Proofs.SyncRingSeqState Proofs.SyncRingShort Proofs.SyncRingPopProgress Proofs.SyncRingAba.
 Local Open Scope Z_scope.
 
 (* the freshly initialised ring of capacity 2^k satisfies the invariant, for every k in [1,31] and thread count *)
@@ -103,3 +103,14 @@ Theorem c01_poppers_progress : forall k c0, Inv k c0 -> Forall (fun p => p = Idl
   Forall (fun p => p = Idle) (ths c) -> exists j v g, In (j, RPop v (Some g)) (hist c).
 Proof. exact poppers_progress. Qed.
 Print Assumptions c01_poppers_progress.
+
+(* Fresh cannot be dropped: a state satisfying the invariant in which one pusher is parked before its CAS with a ticket
+   that is 2^32 positions old; its CAS succeeds, a third element enters the 2-slot ring and the log is no longer a legal
+   bounded-FIFO run.  This is the known finding F10, stated for the model (the check replays it on the real code). *)
+Theorem c01_fresh_is_necessary_refuted :
+  Inv 1 aba_state /\ ~ fresh_ok aba_state 0 /\
+  exists c', step aba_state (0%nat, OpPop) = Some c' /\
+             Z.of_nat (length (q (sh c'))) = 3 /\ cap (sh c') = 2 /\
+             replay (cap (sh c')) (lin (sh c')) [] = None.
+Proof. exact (conj aba_state_inv (conj aba_state_not_fresh syncring_aba_refuted)). Qed.
+Print Assumptions c01_fresh_is_necessary_refuted.
